@@ -14,11 +14,13 @@ CONSTANTS
   EnJRot = TRUE
   EnViews = TRUE
   EnCompact = TRUE
+  EnPersist = TRUE
   EnRemove = TRUE
   FilterNames = {}
-  FixCovered = FALSE
+  FixCovered = TRUE
   FixSeqno = TRUE
   FixIdSeed = TRUE
   FixMetaSeqno = TRUE
+  FixTrkZero = TRUE
 INVARIANTS ExportStep
 CHECK_DEADLOCK FALSE
